@@ -157,7 +157,11 @@ func zzC12WatcherHavoc() {
 			break
 		}
 		cc.lock.Lock()
-		havoc()
+		if vParam("KEEP") == 1 && vChoose("keep", 2) == 1 {
+			// nobody touched the queue: the worker meets the very future again it armed its timer for
+		} else {
+			havoc()
+		}
 		if cc.watchers < 2 {
 			cc.watchers = 2
 		}
